@@ -304,15 +304,6 @@ def c06_array_constructor_empty_item():
     return ok1 and ok2, dict(first=o1, second=o2)
 
 
-def _rejected(src, std="f2003"):
-    from fparser.two.utils import FortranSyntaxError
-    try:
-        t = _parser(std)(_reader(src))
-        return False, dict(accepted_as=str(t))
-    except FortranSyntaxError as e:
-        return True, dict(rejected=str(e)[:80])
-
-
 def c08_stray_end_do_inside_labelled_do():
     """D36: an unlabelled END DO inside the range of a labelled DO is accepted"""
     return _rejected("subroutine w(a, n)\n integer n, i\n real a(n)\n do 10 i = 1, n\n  a(i) = 0\n end do\n10 continue\nend subroutine w\n")
